@@ -4,5 +4,9 @@ package main
 import "verifextract/xlate"
 
 func main() {
-	xlate.Main("C05", xlate.Spec{Pkg: "proxy/search", Recv: "Ingestor", Name: "paginateIDs"})
+	xlate.Main("C05",
+		xlate.Spec{Pkg: "proxy/search", Recv: "Ingestor", Name: "paginateIDs"},
+		// fractions are an interface: Info() stays uninterpreted; IDs and Info values are opaque, read through accessors
+		xlate.Spec{Pkg: "fracmanager", Name: "calcEnsuredIDsCount", Oracles: []string{"Fraction.Info"}},
+	)
 }
